@@ -71,6 +71,10 @@ func genLegEvents(r *rand.Rand, coll bool, n int) []LegEvent {
 		case "chg":
 			e.Key = pick(r, "a", "b", "c")
 			e.Val = json.RawMessage(pick(r, `1`, `2`, `"x"`, `"y"`, `true`, `null`, `"<delete>"`, `{"rid":"test.m.2"}`))
+			if chance(r, 18) {
+				e.Key = "n"
+				e.Val = json.RawMessage(pick(r, `0`, `0`, `7`, `"<delete>"`))
+			}
 		case "add":
 			e.Idx = pick(r, 0, 0, 1, 2, 5)
 			e.Val = json.RawMessage(pick(r, `"a"`, `"b"`, `1`, `{"rid":"test.m.1"}`))
@@ -173,6 +177,9 @@ type legModelT struct {
 	A interface{} `json:"a,omitempty"`
 	B interface{} `json:"b,omitempty"`
 	C interface{} `json:"c,omitempty"`
+	// N has a concrete type and no omitempty: a value that went through the
+	// Go type always has it, a stored raw value only after it was set
+	N int `json:"n"`
 }
 
 // legState is the fold of the applied events for one resource.
@@ -199,6 +206,18 @@ func jsonClone(v interface{}) interface{} {
 
 // dropNulls removes null-valued members of a JSON object (what a round trip
 // through the typed model struct with omitempty fields does).
+// projectTyped is what a model looks like after a round trip through
+// legModelT: null properties are gone, n is always there.
+func projectTyped(v interface{}) interface{} {
+	v = dropNulls(v)
+	if m, ok := v.(map[string]interface{}); ok {
+		if _, has := m["n"]; !has {
+			m["n"] = 0
+		}
+	}
+	return v
+}
+
 func dropNulls(v interface{}) interface{} {
 	m, ok := v.(map[string]interface{})
 	if !ok {
@@ -355,6 +374,10 @@ func (LegacyScenario) Execute(sim *sched.Sim, ci interface{}, prop string, race 
 	h := NewHist(sim)
 	lr := &legRun{c: c, sim: sim, h: h, states: map[string]*legState{}, lastEv: map[string]string{}, failCommit: map[string]bool{}, commitFired: map[string]bool{}}
 	lr.defM = map[string]interface{}{"a": "def"}
+	if c.Typed {
+		// the default of a typed model is a legModelT value
+		lr.defM["n"] = 0
+	}
 	lr.defC = []interface{}{"d"}
 	for _, rid := range legRIDs {
 		lr.states[rid] = &legState{}
@@ -660,7 +683,11 @@ func (lr *legRun) callback(r res.Resource, op LegOp) {
 				}
 			case "delete":
 				if lr.c.Typed {
-					old = dropNulls(jsonClone(old))
+					if lr.coll(rid) {
+						old = dropNulls(jsonClone(old))
+					} else {
+						old = projectTyped(jsonClone(old))
+					}
 				}
 				if st.before.present && !model.JSONEqual(strings.TrimPrefix(listener, "delete "), jsonStr(old)) {
 					lr.h.Violate("C20", "listener-deleted-data", "", fmt.Sprintf("delete listener got %s, the previous stored value is %s; %s", listener, jsonStr(old), desc))
@@ -672,7 +699,11 @@ func (lr *legRun) callback(r res.Resource, op LegOp) {
 	v, err := r.Value()
 	want, have := lr.served(rid, st.present, st.val)
 	if lr.c.Typed && have {
-		want = dropNulls(jsonClone(want))
+		if lr.coll(rid) {
+			want = dropNulls(jsonClone(want))
+		} else {
+			want = projectTyped(jsonClone(want))
+		}
 	}
 	lr.evals++
 	switch {
